@@ -8,7 +8,7 @@ CONSTANTS
   FixPats = {"none", "th1", "om", "omblk1", "sg"}
   MaxSteps = 2
   RowSets = {"full", "nocov", "abort", "nm72", "covabort"}
-  IterSets = {"0-5-10", "5-10"}
+  IterSets = {"0-5-10", "0"}
   AllPhi = FALSE
 INIT Init
 NEXT Next
